@@ -284,4 +284,27 @@ def r87(F):
     return r
 
 
-RULES = [r53, r54, r55, r56, r87]
+def r55w(F):
+    r = RuleResult("R55w", "an included document is decoded to its end",
+                   "the json, yaml and toml importers hand the whole input to a whole-document entry point of the decoder "
+                   "(from_slice / from_str / from_reader), or call end() on a streaming deserializer: a stream that yields its first value "
+                   "and is dropped never looks at what follows, so `{\"a\": 1}}` or two concatenated documents are accepted", floor=3)
+    WHOLE = ("::from_slice", "::from_str", "::from_reader", "de::from_slice", "de::from_str", "de::from_reader")
+    for conv, cname in (("json", "ucglib::convert::json::JsonConverter"), ("yaml", "ucglib::convert::yaml::YamlConverter"), ("toml", "ucglib::convert::toml::TomlConverter")):
+        cands = [n for n in F.fns if n.startswith("<" + cname + " as ucglib::convert::traits::Importer>::import")]
+        need(cands, "Importer::import of %s not found" % conv)
+        fn = F.fn(cands[0])
+        cs = [callee(t) for b, t in fn.calls()]
+        lib = "serde_" + conv if conv != "toml" else "toml"
+        whole = [c for c in cs if c.startswith(lib) and c.endswith(("from_slice", "from_str", "from_reader"))]
+        stream = [c for c in cs if c.startswith(lib) and ("Deserializer" in c or "StreamDeserializer" in c)]
+        ended = any(c.endswith("::end") for c in cs)
+        ok = bool(whole) and not stream or (bool(stream) and ended)
+        r.inst("%s:whole-input" % conv, fn.where(), ok,
+               "decoded with %s" % (whole[0].split("::")[-1] if whole else "a stream checked with end()") if ok else
+               "the %s importer takes values from a streaming deserializer (%s) without calling end(): input after the first value is "
+               "never inspected" % (conv, ", ".join(sorted({c.split("::")[-1] for c in stream})) or "no whole-document entry point"))
+    return r
+
+
+RULES = [r53, r54, r55, r56, r87, r55w]
